@@ -128,6 +128,9 @@ Section Tags.
   Record st := { head : root; work : root; other : list N }.
 
   Definition has_col (cs : list col) (n : bytes) : bool := existsb (fun c => eq_fold n (c_name c)) cs.
+  (* the SQL layer refuses a CREATE TABLE that names a column twice (case-insensitively) *)
+  Fixpoint names_distinct (l : list bytes) : bool :=
+    match l with [] => true | n :: r => negb (existsb (eq_fold n) r) && names_distinct r end.
   Fixpoint insert_at {A} (i : nat) (x : A) (l : list A) : list A :=
     match i, l with
     | O, _ => x :: l
@@ -143,6 +146,7 @@ Section Tags.
   Definition step (fuel : nat) (s : st) (d : ddl) : option st :=
     match d with
     | Create t news =>
+        if negb (names_distinct (map fst news)) then Some s else    (* duplicate column name: rejected *)
         match lookup t (work s) with
         | Some _ => Some s                                        (* table exists: rejected *)
         | None =>
@@ -207,18 +211,33 @@ Definition is_nil {A} (l : list A) : bool := match l with [] => true | _ => fals
 (* schema.Column (+ the NotNull constraint as [sc_nullable]); the type is its canonical descriptor *)
 Record scol := {
   sc_name : bytes; sc_tag : N; sc_ty : bytes; sc_nullable : bool; sc_pk : bool; sc_autoinc : bool;
-  sc_default : bytes; sc_generated : bytes; sc_onupdate : bytes; sc_virtual : bool; sc_comment : bytes; sc_hidden : bool }.
-Record sindex := { ix_name : bytes; ix_tags : list N; ix_unique : bool; ix_comment : bytes; ix_prefix : list N; ix_flags : N }.
-Record scheck := { ck_name : bytes; ck_expr : bytes; ck_enforced : bool }.
+  sc_default : bytes; sc_generated : bytes; sc_onupdate : bytes; sc_virtual : bool; sc_comment : bytes;
+  sc_hidden : bool; sc_syshidden : bool }.
+(* schema.FullTextProperties *)
+Record ftinfo := {
+  ft_config : bytes; ft_pos : bytes; ft_doccount : bytes; ft_global : bytes; ft_rowcount : bytes;
+  ft_keytype : N; ft_keyname : bytes; ft_keypos : list N }.
+Definition ft_zero : ftinfo :=
+  {| ft_config := []; ft_pos := []; ft_doccount := []; ft_global := []; ft_rowcount := []; ft_keytype := 0; ft_keyname := []; ft_keypos := [] |}.
+(* schema.Index + IndexProperties.  ix_vecdist: 0 = no distance type (zero VectorProperties), 1 = vector.DistanceL2Squared, other = any other *)
+Record sindex := {
+  ix_name : bytes; ix_tags : list N; ix_unique : bool; ix_comment : bytes; ix_prefix : list N;
+  ix_userdef : bool; ix_spatial : bool; ix_fulltext : bool; ix_vector : bool; ix_predicate : bytes;
+  ix_ft : ftinfo; ix_vecdist : N }.
+Record scheck := { ck_name : bytes; ck_expr : bytes; ck_enforced : bool; ck_notvalid : bool }.
 Record sschema := {
   s_cols : list scol; s_pk_ord : list nat; s_indexes : list sindex; s_checks : list scheck;
   s_collation : N; s_comment : bytes; s_rowsize : N }.
 
-(* serial.Column / serial.Index / serial.CheckConstraint / serial.TableSchema: the fields that are written *)
+(* serial.Column / serial.Index / serial.CheckConstraint / serial.TableSchema: the fields that are written
+   (display_order, key_columns, value_columns, the clustered index flags, uses_adaptive_encoding and
+   has_features_after_try_accessors are written but never read back: not modelled) *)
 Record fcol := {
   f_name : bytes; f_sqltype : bytes; f_default : bytes; f_comment : bytes; f_tag : N; f_pk : bool; f_autoinc : bool;
-  f_nullable : bool; f_generated : bool; f_virtual : bool; f_onupdate : option bytes; f_hidden : bool }.
-Record findex := { fi_name : bytes; fi_comment : bytes; fi_cols : list nat; fi_unique : bool; fi_prefix : list N; fi_flags : N }.
+  f_nullable : bool; f_generated : bool; f_virtual : bool; f_onupdate : option bytes; f_hidden : bool; f_syshidden : bool }.
+Record findex := {
+  fi_name : bytes; fi_comment : bytes; fi_cols : list nat; fi_unique : bool; fi_system : bool; fi_prefix : list N;
+  fi_spatial : bool; fi_fulltext : bool; fi_ft : option ftinfo; fi_vector : bool; fi_vec : option N; fi_predicate : option bytes }.
 Record fschema := {
   fs_cols : list fcol; fs_key_cols : list nat; fs_indexes : list findex; fs_checks : list scheck;
   fs_collation : N; fs_comment : option bytes; fs_rowsize : N }.
@@ -237,6 +256,12 @@ Fixpoint tag_pos (t : N) (tags : list N) : option nat :=
   end.
 Definition tag_to_idx (tags : list N) (t : N) : nat := match tag_pos t tags with Some i => i | None => O end.
 
+Fixpoint map_opt {A B} (f : A -> option B) (l : list A) : option (list B) :=
+  match l with
+  | [] => Some []
+  | x :: r => match f x, map_opt f r with Some y, Some ys => Some (y :: ys) | _, _ => None end
+  end.
+
 Section Serial.
   Variable type_string : bytes -> bytes.            (* sqlTypeString(TypeInfo) + Encoding *)
   Variable parse_type : bytes -> option bytes.      (* typeinfoFromSqlType + WithEncoding *)
@@ -248,19 +273,27 @@ Section Serial.
        f_comment := sc_comment c; f_tag := sc_tag c; f_pk := sc_pk c; f_autoinc := sc_autoinc c;
        f_nullable := sc_nullable c; f_generated := negb (is_nil (sc_generated c)); f_virtual := sc_virtual c;
        f_onupdate := if is_nil (sc_onupdate c) then None else Some (sc_onupdate c);
-       f_hidden := sc_hidden c |}.
+       f_hidden := sc_hidden c; f_syshidden := sc_syshidden c |}.
 
   (* serializeHiddenKeylessColumns *)
   Definition hidden_col (name : bytes) (tag : N) : fcol :=
     {| f_name := name; f_sqltype := []; f_default := []; f_comment := []; f_tag := tag; f_pk := false; f_autoinc := false;
-       f_nullable := false; f_generated := true; f_virtual := false; f_onupdate := None; f_hidden := true |}.
+       f_nullable := false; f_generated := true; f_virtual := false; f_onupdate := None; f_hidden := true; f_syshidden := false |}.
   Definition keyless_id_tag : N := 2251799813690248.       (* schema.KeylessRowIdTag = (ReservedTagMin << 1) + 5000 *)
   Definition keyless_card_tag : N := 2251799813690249.     (* schema.KeylessRowCardinalityTag *)
 
-  (* serializeSecondaryIndexes *)
+  (* serializeSecondaryIndexes (+ serializeFullTextInfo, serializeVectorInfo): the system_defined flag is the negation of
+     IsUserDefined; the fulltext table is written only for a fulltext index, the vector table only for a vector index and
+     its distance type is L2_Squared only for vector.DistanceL2Squared (anything else is left at DistanceTypeNull = 0);
+     the predicate is written only when non-empty *)
   Definition ser_index (tags : list N) (ix : sindex) : findex :=
     {| fi_name := ix_name ix; fi_comment := ix_comment ix; fi_cols := map (tag_to_idx tags) (ix_tags ix);
-       fi_unique := ix_unique ix; fi_prefix := ix_prefix ix; fi_flags := ix_flags ix |}.
+       fi_unique := ix_unique ix; fi_system := negb (ix_userdef ix); fi_prefix := ix_prefix ix;
+       fi_spatial := ix_spatial ix; fi_fulltext := ix_fulltext ix;
+       fi_ft := if ix_fulltext ix then Some (ix_ft ix) else None;
+       fi_vector := ix_vector ix;
+       fi_vec := if ix_vector ix then Some (if ix_vecdist ix =? 1 then 1 else 0) else None;
+       fi_predicate := if is_nil (ix_predicate ix) then None else Some (ix_predicate ix) |}.
 
   (* serializeSchemaAsFlatbuffer *)
   Definition serialize (s : sschema) : fschema :=
@@ -294,35 +327,77 @@ Section Serial.
                 sc_default := if f_generated c then [] else f_default c;
                 sc_generated := if f_generated c then f_default c else [];
                 sc_onupdate := match f_onupdate c with Some u => u | None => [] end;
-                sc_virtual := f_virtual c; sc_comment := f_comment c; sc_hidden := f_hidden c |}
-    end.
-
-  Fixpoint map_opt {A B} (f : A -> option B) (l : list A) : option (list B) :=
-    match l with
-    | [] => Some []
-    | x :: r => match f x, map_opt f r with Some y, Some ys => Some (y :: ys) | _, _ => None end
+                sc_virtual := f_virtual c; sc_comment := f_comment c; sc_hidden := f_hidden c; sc_syshidden := f_syshidden c |}
     end.
 
   Definition dummy_fcol : fcol := hidden_col [] 0.
 
-  (* deserializeSecondaryIndexes: position -> tag of the serialized column at that position *)
-  Definition de_index (f : fschema) (ix : findex) : sindex :=
-    {| ix_name := fi_name ix; ix_tags := map (fun p => f_tag (nth p (fs_cols f) dummy_fcol)) (fi_cols ix);
-       ix_unique := fi_unique ix; ix_comment := fi_comment ix; ix_prefix := fi_prefix ix; ix_flags := fi_flags ix |}.
+  (* deserializeSecondaryIndexes (+ deserializeFullTextInfo, deserializeVectorInfo): position -> tag of the serialized column
+     at that position; an absent fulltext / vector table reads as the zero value; a vector table with a distance type other
+     than L2_Squared is an error *)
+  Definition de_index (f : fschema) (ix : findex) : option sindex :=
+    match (match fi_vec ix with None => Some 0 | Some d => if d =? 1 then Some 1 else None end) with
+    | None => None
+    | Some vd =>
+        Some {| ix_name := fi_name ix; ix_tags := map (fun p => f_tag (nth p (fs_cols f) dummy_fcol)) (fi_cols ix);
+                ix_unique := fi_unique ix; ix_comment := fi_comment ix; ix_prefix := fi_prefix ix;
+                ix_userdef := negb (fi_system ix); ix_spatial := fi_spatial ix; ix_fulltext := fi_fulltext ix;
+                ix_vector := fi_vector ix;
+                ix_predicate := match fi_predicate ix with Some p => p | None => [] end;
+                ix_ft := match fi_ft ix with Some x => x | None => ft_zero end;
+                ix_vecdist := vd |}
+    end.
 
   (* deserializeSchemaFromFlatbuffer; None = an error return *)
   Definition deserialize (f : fschema) : option sschema :=
     let kl := keyless_serial f in
     let fcols := if kl then rev (tl (tl (rev (fs_cols f)))) else fs_cols f in
-    match map_opt de_col fcols with
-    | None => None
-    | Some cols =>
+    match map_opt de_col fcols, map_opt (de_index f) (fs_indexes f) with
+    | Some cols, Some idxs =>
         Some {| s_cols := cols;
                 s_pk_ord := if kl then [] else fs_key_cols f;
-                s_indexes := map (de_index f) (fs_indexes f);
+                s_indexes := idxs;
                 s_checks := fs_checks f;
                 s_collation := fs_collation f;
                 s_comment := match fs_comment f with Some c => c | None => [] end;
                 s_rowsize := fs_rowsize f |}
+    | _, _ => None
     end.
 End Serial.
+
+(* ------------------------------------------------------------------ *)
+(* Part 3: the root's foreign key collection                           *)
+(*   go/libraries/doltcore/doltdb/foreign_key_serialization.go         *)
+(*   (foreign keys are NOT part of the table schema message)           *)
+(* ------------------------------------------------------------------ *)
+Record sfk := {
+  fk_name : bytes; fk_table : bytes; fk_index : bytes; fk_cols : list N;
+  fk_reftable : bytes; fk_refindex : bytes; fk_refcols : list N;
+  fk_onupdate : N; fk_ondelete : N; fk_unres : list bytes; fk_unresref : list bytes; fk_notvalid : bool; fk_match : N }.
+
+Section FKSerial.
+  (* encodeTableNameForSerialization / decodeTableNameFromSerialization (root_val_storage.go): a table name is the pair
+     schema, name flattened to one byte string *)
+  Variable encode_name : bytes -> bytes.
+  Variable decode_name : bytes -> option bytes.
+
+  (* serializeFlatbufferForeignKeys: every field is copied, the two table names are encoded.  The unresolved column lists are
+     written only when non-nil and read as nil when empty: as lists both are []. *)
+  Definition ser_fk (k : sfk) : sfk :=
+    {| fk_name := fk_name k; fk_table := encode_name (fk_table k); fk_index := fk_index k; fk_cols := fk_cols k;
+       fk_reftable := encode_name (fk_reftable k); fk_refindex := fk_refindex k; fk_refcols := fk_refcols k;
+       fk_onupdate := fk_onupdate k; fk_ondelete := fk_ondelete k; fk_unres := fk_unres k; fk_unresref := fk_unresref k;
+       fk_notvalid := fk_notvalid k; fk_match := fk_match k |}.
+  (* deserializeFlatbufferForeignKeys: an undecodable table name is an error *)
+  Definition de_fk (k : sfk) : option sfk :=
+    match decode_name (fk_table k), decode_name (fk_reftable k) with
+    | Some t, Some r =>
+        Some {| fk_name := fk_name k; fk_table := t; fk_index := fk_index k; fk_cols := fk_cols k;
+                fk_reftable := r; fk_refindex := fk_refindex k; fk_refcols := fk_refcols k;
+                fk_onupdate := fk_onupdate k; fk_ondelete := fk_ondelete k; fk_unres := fk_unres k; fk_unresref := fk_unresref k;
+                fk_notvalid := fk_notvalid k; fk_match := fk_match k |}
+    | _, _ => None
+    end.
+  Definition fk_serialize (l : list sfk) : list sfk := map ser_fk l.
+  Definition fk_deserialize (l : list sfk) : option (list sfk) := map_opt de_fk l.
+End FKSerial.
